@@ -188,6 +188,15 @@ def HeldAlong : State → List QStep → Prop
   | s, .read a :: qs => HeldAlong (api s a.toApi).1 qs
   | s, .mutation m :: qs => m.held s = true ∧ HeldAlong (mutate s m) qs
 
+def decHeldAlong : ∀ (qs : List QStep) (s : State), Decidable (HeldAlong s qs)
+  | [], _ => isTrue trivial
+  | .read a :: qs, s => decHeldAlong qs (api s a.toApi).1
+  | .mutation m :: qs, s =>
+    have := decHeldAlong qs (mutate s m)
+    inferInstanceAs (Decidable (m.held s = true ∧ HeldAlong (mutate s m) qs))
+
+instance (s : State) (qs : List QStep) : Decidable (HeldAlong s qs) := decHeldAlong qs s
+
 /-- the same run without `step`'s guard: mutations are applied as they are -/
 def qrunRaw (s : State) : List QStep → State
   | [] => s
